@@ -46,6 +46,7 @@ type Contract struct {
 	OnAssign []CExpr
 	RetExpr  map[*Directive]CExpr
 	BefCall  []CExpr
+	HavocCalls []string
 	BefRet   []CExpr
 	Assigns  []CExpr
 	NonNil   []CExpr
@@ -68,6 +69,7 @@ type GhostVar struct {
 }
 
 type World struct {
+	privCache map[fieldKey]bool
 	Fset      *token.FileSet
 	Pkgs      map[string]*packages.Package
 	Decls     map[*types.Func]*declInfo
@@ -734,6 +736,11 @@ func (w *World) resolve(c *Contract, si *sigInfo) error {
 			} else {
 				c.BefCall = append(c.BefCall, ce)
 			}
+		case "havoccall":
+			if len(w.callSites(c, d)) == 0 {
+				return fmt.Errorf("%s:%d: missing: no call %q in %s", b.File, d.Line, d.CallText, b.Key())
+			}
+			c.HavocCalls = append(c.HavocCalls, d.CallText)
 		case "onassign":
 			// ghost update at every assignment whose left-hand side has the given text
 			var site ast.Node
